@@ -5,10 +5,8 @@
    Full statement (false of the faithful model, see Findings/C15.v: eight call shapes break it):
        forall h c, WF h -> WF (fst (step h c))
        forall h c e, WF h -> single_element c = true -> snd (step h c) = ORaised e -> fst (step h c) = h
-   Proved: the same for every call whose `trigger` is None (atomicity: whose trigger is not 4),
-   with one call shape left open (Step.open_case: set_doc(doc) on an element that already has
-   children, i.e. attaching a whole detached tree; that case is covered by the correspondence runs
-   and by wf_b on the code's states only). *)
+   Proved: the same for every call whose `trigger` is None (atomicity: whose trigger is not 4);
+   nothing else is excluded. *)
 From Coq Require Import List Arith Bool.
 From TT Require Import Proofs.C15.All.
 Import ListNotations.
@@ -17,7 +15,7 @@ Theorem C15_wf_init : forall elems ndoc, elems_ok elems ndoc = true -> WF (init 
 Proof. exact init_WF. Qed.
 
 Theorem C15_wf_step_partial : forall h c,
-  WF h -> trigger h c = None -> open_case h c = false -> WF (fst (step h c)).
+  WF h -> trigger h c = None -> WF (fst (step h c)).
 Proof. exact step_WF. Qed.
 
 Theorem C15_reachable_partial : forall elems ndoc calls,
@@ -25,7 +23,7 @@ Theorem C15_reachable_partial : forall elems ndoc calls,
 Proof. exact reachable_WF. Qed.
 
 Theorem C15_atomic_partial : forall h c e,
-  WF h -> single_element c = true -> trigger h c <> Some 4 -> open_case h c = false ->
+  WF h -> single_element c = true -> trigger h c <> Some 4 ->
   snd (step h c) = ORaised e -> fst (step h c) = h.
 Proof. exact step_atomic. Qed.
 
@@ -58,7 +56,7 @@ Example C15_example_history :
   let elems := [(KBody, Some 0, None); (KDiv, Some 0, None); (KP, Some 0, None); (KSpan, Some 0, None);
                 (KRegion, Some 0, Some 1); (KRuby, Some 0, None); (KRb, Some 0, None); (KRt, Some 0, None)] in
   let calls := [CPushChild 0 1; CPushChild 1 2; CPushChild 2 3; CPutRegion 0 4; CSetBody 0 (Some 0);
-                CSetRegion 2 (Some 4); CPushChildren 5 [6; 7]; CPushChild 2 5; CPushChild 3 2;
+                CSetRegion 2 (Some 4); CPushChildren 5 [6; 7]; CPushChild 2 5; CPushChild 3 2; CSetDoc 5 None;
                 CSetStyle 3 (PValid PFontFamily) (Some (VTuple [FStr; FGeneric]));
                 CSetStyle 3 (PValid PFontFamily) (Some (VTuple [FOther])); CRemoveRegion 0 1; CRemove 3] in
   elems_ok elems 1 = true /\ admissible (init elems 1) calls = true /\
